@@ -47,9 +47,13 @@ var c18Anchored = []string{"swap/service.go", "swap/fsm.go", "swap/actions.go", 
 
 // Concurrent entry points: every exported method of these types can be called from another goroutine
 // (RPC server, plugin command handlers, message dispatcher, daemon main), plus the listed functions.
-var c18RootTypes = []string{"swap.SwapService", "swap.SwapStateMachine", "policy.Policy", "txwatcher.BlockchainRpcTxWatcher",
+var c18RootTypes = []string{"swap.SwapService", "policy.Policy", "txwatcher.BlockchainRpcTxWatcher",
 	"lwk.electrumTxWatcher", "electrum.liquidBlockHeaderSubscriber"}
-var c18RootFuncs = []string{"peersync.poller.start", "peersync.poller.PollAllPeers", "peersync.poller.ForcePollAllPeers"}
+
+// of SwapStateMachine only these are used from outside the swap package (RPC server / plugin commands wait for a state;
+// SendEvent and Recover are listed although only the service calls them)
+var c18RootFuncs = []string{"peersync.poller.start", "peersync.poller.PollAllPeers", "peersync.poller.ForcePollAllPeers",
+	"swap.SwapStateMachine.WaitForStateChange", "swap.SwapStateMachine.SendEvent", "swap.SwapStateMachine.Recover"}
 
 // Field classes that are tracked (C19): the fields of the long-lived objects that several goroutines reach -- the swap
 // service with its machines and their data, the policy, the watchers, the block-header subscriber, the peer-sync
